@@ -12,6 +12,7 @@ The data-intact clause is differential: the driver compares random payloads byte
 stream it gets from an ok resolution that it echoes on and records `echo` observations in the same trace."""
 import json
 import os
+from collections import deque
 
 import vlib
 
@@ -50,6 +51,88 @@ def acc_of(run):
     return run[0].get("acc", "?")
 
 
+def path_cover_long(g, rng, max_len=60, detour=3):
+    """Init-rooted paths covering every edge, like vlib.path_cover, but a path that runs out of uncovered
+    successors takes a short detour (<= `detour` covered edges) to the nearest state that still has one,
+    instead of ending: fewer restarts (each restart is a fresh thread, runtime and handshakes)."""
+    parent = {}
+    order = []
+    dq = deque()
+    for i in g.inits:
+        parent[i] = None
+        dq.append(i)
+    while dq:
+        n = dq.popleft()
+        order.append(n)
+        for ei in g.succ.get(n, []):
+            t = g.edges[ei][2]
+            if t not in parent:
+                parent[t] = ei
+                dq.append(t)
+    def prefix(node):
+        p = []
+        while parent[node] is not None:
+            ei = parent[node]
+            p.append(ei)
+            node = g.edges[ei][0]
+        p.reverse()
+        return p
+    covered = [False] * len(g.edges)
+    nunc = {n: len(g.succ.get(n, [])) for n in order}     # uncovered out-edges per node
+    def take(ei):
+        if not covered[ei]:
+            covered[ei] = True
+            nunc[g.edges[ei][0]] -= 1
+    def find_detour(node):
+        # shortest edge sequence (<= detour hops) from node to a node with an uncovered out-edge
+        seen = {node: None}
+        q = deque([(node, 0)])
+        while q:
+            n, d = q.popleft()
+            if d >= detour:
+                continue
+            succ = list(g.succ.get(n, []))
+            rng.shuffle(succ)
+            for ei in succ:
+                t = g.edges[ei][2]
+                if t in seen:
+                    continue
+                seen[t] = ei
+                if nunc.get(t, 0) > 0:
+                    p = []
+                    while seen[t] is not None:
+                        p.append(seen[t])
+                        t = g.edges[seen[t]][0]
+                    p.reverse()
+                    return p
+                q.append((t, d + 1))
+        return None
+    paths = []
+    reachable = [ei for n in order for ei in g.succ.get(n, [])]
+    for ei in reachable:
+        if covered[ei]:
+            continue
+        p = prefix(g.edges[ei][0]) + [ei]
+        for x in p:
+            take(x)
+        node = g.edges[ei][2]
+        while len(p) < max_len:
+            nxt = [x for x in g.succ.get(node, []) if not covered[x]]
+            if nxt:
+                x = rng.choice(nxt)
+                take(x)
+                p.append(x)
+                node = g.edges[x][2]
+                continue
+            d = find_detour(node)
+            if not d or len(p) + len(d) >= max_len:
+                break
+            p.extend(d)
+            node = g.edges[d[-1]][2]
+        paths.append(p)
+    return paths, sum(covered), len(reachable)
+
+
 def replay_edges(ctx, cfg, tag, nrand, rand_len):
     """TLC exhaustive on `cfg` with the edge dump -> path cover -> schedules for both acceptors -> driver ->
     comparison with the edge labels + TLC validation of the recorded runs."""
@@ -59,7 +142,7 @@ def replay_edges(ctx, cfg, tag, nrand, rand_len):
     ctx.add_tlc(cfg, res, "exhaustive, design variants, edge dump")
     g = vlib.graph_from_tlc(res.stdout)
     del res.stdout
-    paths, covered, total = vlib.path_cover(g, ctx.rng)
+    paths, covered, total = path_cover_long(g, ctx.rng)
     jobs = []
     for k in range(nrand):     # seeded random walks, judged by TLC only
         t = ctx.rng.randint(2, 5)
